@@ -520,7 +520,16 @@ func (w *World) applyContract(fr *Frame, st *State, ct *Contract, names []string
 	}
 	// frame
 	if ct.ModAll || (!ct.ModStated && ct.Kind == "func") {
+		keep := map[string]Term{}
+		for _, pe := range ct.Preserves {
+			for _, k := range w.preservedKeys(&CEnv{w: w, pkg: pkg, vars: vars, cur: pre, old: pre, lets: ct.Lets}, pe) {
+				keep[k] = w.hget(st, k)
+			}
+		}
 		w.havocAll(st)
+		for k, v := range keep {
+			st.heap[k] = v
+		}
 	} else {
 		w.havocForContract(st, pre, ct, vars, pkg)
 	}
@@ -584,6 +593,49 @@ func (w *World) assumeResultWF(st *State, v *Val) {
 	if v.T.S != "" {
 		w.assumeLoaded(st, v)
 	}
+}
+
+// preservedKeys resolves one entry of a preserves clause to heap keys:
+// T.f (a field of every object of struct type T), elems(*T) (backing arrays
+// of element type *T), global(v).
+func (w *World) preservedKeys(env *CEnv, e *CExpr) []string {
+	switch e.Op {
+	case "sel":
+		if e.Args[0].Op == "id" {
+			t := w.resolveType(env, &CType{Name: e.Args[0].Name})
+			if stt, ok := t.Underlying().(*types.Struct); ok {
+				if fi := fieldIndex(stt, e.Name); fi >= 0 {
+					return []string{w.fieldKey(t, fi)}
+				}
+			}
+		}
+	case "call":
+		if e.Args[0].Op == "id" && len(e.Args) == 2 {
+			switch e.Args[0].Name {
+			case "elems":
+				return []string{w.elemsKeyT(w.typeArg(env, e.Args[1]))}
+			case "global":
+				if id := e.Args[1]; id.Op == "id" && env.pkg != nil {
+					if sp := w.l.Prog.Package(env.pkg); sp != nil {
+						if g, ok := sp.Members[id.Name].(*ssa.Global); ok {
+							return []string{w.globalKey(g)}
+						}
+					}
+				}
+			case "fieldsOf":
+				t := w.typeArg(env, e.Args[1])
+				var out []string
+				if stt, ok := t.Underlying().(*types.Struct); ok {
+					for i := 0; i < stt.NumFields(); i++ {
+						out = append(out, w.fieldKey(t, i))
+					}
+				}
+				return out
+			}
+		}
+	}
+	unsupported("preserves entry %s not understood", exprString(e))
+	return nil
 }
 
 // modTarget is one entry of a modifies clause resolved against a state.
@@ -978,24 +1030,9 @@ func (w *World) execAppend(fr *Frame, st *State, c *ssa.CallCommon, s, t *Val) *
 		w.sc.assume(implies(st.cond, Term{fmt.Sprintf("(forall ((aj! Int)) (! (=> (and (<= (+ %s %s) aj!) (< aj! (+ %s %s))) (= (select %s aj!) (select %s (+ (- aj! (+ %s %s)) %s)))) :pattern ((select %s aj!))))",
 			tb.S, n1.S, tb.S, total.S, na.S, tArr.S, tb.S, n1.S, tOff.S, na.S), SBool}))
 	}
-	// inside a loop of the function under contract the loop frame relies on
+	// inside a loop of the function under contract the loop frame may rely on
 	// in-place appends writing only arrays allocated since function entry
-	if fr.top && fr.loops != nil && w.curBlock != nil {
-		for _, blocks := range fr.loops.body {
-			for _, b := range blocks {
-				if b == w.curBlock {
-					w.callOrd["loopappend"]++
-					props := []string{}
-					if fr.contract != nil {
-						props = fr.contract.Props
-					}
-					w.oblige("loop.write", fmt.Sprintf("loopwrite.append%d.fresh-array", w.callOrd["loopappend"]), and(st.cond, inplace, not(eq(n2, intLit(0)))), lt(w.hget(fr.entry, allocKey), sarr(s.T)), false, props)
-					goto done
-				}
-			}
-		}
-	done:
-	}
+	w.loopWriteCheckIf(fr, st, key, sarr(s.T), and(inplace, not(eq(n2, intLit(0)))))
 	w.hset(st, key, store(E, target, na))
 	res := mk(SSlice, "mkSlice", target, tb, total, ite(inplace, scap(s.T), newCap))
 	// append(s) with nothing to add returns s itself
